@@ -143,6 +143,12 @@ SelfOnly(s, h) == s.mode[h] # "shortcut" /\ ((h \in s.single[h] /\ ~s.selfOpt[h]
 \* (Such a point is optional: a required point without candidates fails in further matching, before the collector runs.)
 LateOf(s, h) == IF "late" \in DOMAIN s THEN s.late[h] ELSE FALSE
 
+\* sc.once[n]: the fault of n is TRANSIENT - it fires only while nothing has failed yet in this container (the first attempt fails,
+\* a retry goes through).  failedEver turns TRUE when the failing creation returns, i.e. after the fault fired and before any
+\* other callback can run.
+OnceOf(s, n) == IF "once" \in DOMAIN s THEN s.once[n] ELSE FALSE
+Faulty(n, tag) == sc.fail[n] = tag /\ (~OnceOf(sc, n) \/ ~failedEver)
+
 \* Meta.IsSelf: the candidate's origin address is the holder's own object
 IsSelf(h, v) == v.n = h /\ v.o = "raw"
 
@@ -183,7 +189,7 @@ Lookup(t) ==
   IF L1[t] # NoV THEN [found |-> TRUE, v |-> L1[t], err |-> FALSE, ran |-> FALSE]
   ELSE IF L2[t] # NoV THEN [found |-> TRUE, v |-> L2[t], err |-> FALSE, ran |-> FALSE]
   ELSE IF t \in L3 THEN
-         IF sc.fail[t] = "early" THEN [found |-> FALSE, v |-> NoV, err |-> TRUE, ran |-> TRUE]
+         IF Faulty(t, "early") THEN [found |-> FALSE, v |-> NoV, err |-> TRUE, ran |-> TRUE]
          ELSE [found |-> TRUE, v |-> EarlyVer(sc, t), err |-> FALSE, ran |-> TRUE]
   ELSE [found |-> FALSE, v |-> NoV, err |-> FALSE, ran |-> FALSE]
 
@@ -264,7 +270,7 @@ SAfter ==
   /\ stack # <<>> /\ Top.pc = "sainit"
   /\ LET n == Top.n IN
      /\ cnt' = Bump(n, "after")
-     /\ IF sc.fail[n] = "after"
+     /\ IF Faulty(n, "after")
         THEN stack' = [stack EXCEPT ![Len(stack)] = [Top EXCEPT !.pc = "fail"]] /\ UNCHANGED phase
         ELSE stack' = [stack EXCEPT ![Len(stack)] = [Top EXCEPT !.pc = "end", !.exp = Raw(n)]] /\ phase' = [phase EXCEPT ![n] = "ainit"]
   /\ UNCHANGED <<sc, pinit, ran, L1, L2, L3, inCr, fS, fL, deps, earlyRuns, seen, queue, status, lookups, failedEver>>
@@ -274,7 +280,7 @@ Resolve ==
   /\ stack # <<>> /\ Top.pc = "resolve"
   /\ LET n == Top.n IN
      /\ stack' = [stack EXCEPT ![Len(stack)] =
-                 IF sc.fail[n] = "resolve" THEN [Top EXCEPT !.pc = "fail"]
+                 IF Faulty(n, "resolve") THEN [Top EXCEPT !.pc = "fail"]
                  ELSE [Top EXCEPT !.pc = "pop", !.todoS = IF FixF3 THEN sc.single[n] \ {n} ELSE sc.single[n],
                                               !.todoL = IF FixF3 /\ ~LateOf(sc, n) THEN sc.slice[n] \ {n} ELSE sc.slice[n]]]
      /\ cnt' = Bump(n, "resolve")
@@ -288,7 +294,7 @@ Callback(pcFrom, failTag, pcTo, ph) ==
   /\ IF pcFrom = "pop" THEN PopulateDone(Top) ELSE Top.pc = pcFrom
   /\ LET n == Top.n IN
      /\ cnt' = Bump(n, failTag)
-     /\ IF sc.fail[n] = failTag
+     /\ IF Faulty(n, failTag)
         THEN /\ stack' = [stack EXCEPT ![Len(stack)] = [Top EXCEPT !.pc = "fail"]]
              /\ UNCHANGED phase
         ELSE /\ stack' = [stack EXCEPT ![Len(stack)] = [Top EXCEPT !.pc = pcTo]]
@@ -300,7 +306,7 @@ BInit  == \/ (stack # <<>> /\ sc.mode[Top.n] # "beforeNil" /\ Callback("pop", "b
              /\ stack # <<>> /\ sc.mode[Top.n] = "beforeNil" /\ PopulateDone(Top)
              /\ LET n == Top.n IN
                 /\ cnt' = Bump(n, "before")
-                /\ IF sc.fail[n] = "before"
+                /\ IF Faulty(n, "before")
                    THEN stack' = [stack EXCEPT ![Len(stack)] = [Top EXCEPT !.pc = "fail"]] /\ UNCHANGED phase
                    ELSE stack' = [stack EXCEPT ![Len(stack)] = [Top EXCEPT !.pc = "check", !.exp = Raw(n)]] /\ phase' = [phase EXCEPT ![n] = "binit"]
              /\ UNCHANGED <<sc, pinit, ran, L1, L2, L3, inCr, fS, fL, deps, earlyRuns, seen, queue, status, lookups, failedEver>>
@@ -312,7 +318,7 @@ AInit ==
   /\ stack # <<>> /\ Top.pc = "ainit"
   /\ LET n == Top.n IN
      /\ cnt' = Bump(n, "after")
-     /\ IF sc.fail[n] = "after"
+     /\ IF Faulty(n, "after")
         THEN /\ stack' = [stack EXCEPT ![Len(stack)] = [Top EXCEPT !.pc = "fail"]] /\ UNCHANGED <<phase, deps>>
         ELSE /\ phase' = [phase EXCEPT ![n] = "ainit"]
              /\ stack' = [stack EXCEPT ![Len(stack)] =
